@@ -7,8 +7,13 @@ C02_CLASSES = {"return-mismatch", "not-minimum", "weight-vector", "unweighable-o
 RULE = ("every labelled simple graph on exactly n vertices (all 2^(n(n-1)/2) edge subsets, edges inserted in "
         "lexicographic order) x every function E->alphabet (U={1}, A2={1,2}, A3={1,2,3}, D={.25,.5,.75}) x each of "
         "mcb_sva_signed / mcb_sva_fvs_trees / mcb_sva_iso_trees, plus named families with all weightings; oracle = "
-        "all simple cycles + GF(2) greedy reference. evaluations = algorithm runs; distinct_nontrivial = distinct "
+        "all simple cycles + GF(2) greedy reference (Horton-collection reference above cycle space dimension 15); a fixed menu of pseudo-random sparse graphs (deterministic generator, enumerated completely). evaluations = algorithm runs; distinct_nontrivial = distinct "
         "(graph, weighting, weight type) inputs whose cycle space dimension is >= 1 (enumeration never repeats an input)")
+
+
+def lcg_menu(ns, ratios, seeds):
+    """Fixed menu of pseudo-random sparse graphs (deterministic LCG): a finite corpus enumerated completely on every run."""
+    return ",".join("lcg:%d:%d:%d" % (n, int(n * r), s) for n in ns for r in ratios for s in range(seeds))
 
 
 def runs(tier):
@@ -22,6 +27,8 @@ def runs(tier):
         ("blob grammar K=3,T=2 x patterns U, M2, M3", [["--grammar", "blobs:3:2", "--alpha", a] for a in ("U", "M2", "M3")]),
         ("dense families x U", [["--families", "K:6,K:7,wheel:6,prism:4,petersen,Kb:3:4,grid:3:4,cube:3", "--alpha", "U"]]),
         ("G(6) x A2, graphs with >= 12 edges, mcb_sva_signed (support vectors with several entries: hidden-edge heuristic)", [["--n", 6, "--alpha", "A2", "--min-m", 12, "--variants", "signed"]]),
+        ("fixed menu: 2400 pseudo-random sparse graphs n=8..24 x 4 pseudo-random weightings in 1..9 (Horton reference above dimension 15)",
+         [["--families", lcg_menu((8, 10, 12, 14, 16, 18, 20, 24), (1.3, 1.6, 2.0), 100), "--alpha", "R9x4"]]),
     ]
     if tier == "quick":
         return q
@@ -30,6 +37,8 @@ def runs(tier):
         ("G(5) x D, double", [["--n", 5, "--alpha", "D"]]),
         ("blob grammar K=3,T=3 x patterns U, M2", [["--grammar", "blobs:3:3", "--alpha", a] for a in ("U", "M2")]),
         ("families x A2", [["--families", "wheel:5,wheel:6,prism:3,prism:4,Kb:3:3,cube:3,grid:3:3,petersen,Kb:2:5,grid:2:5", "--alpha", "A2"]]),
+        ("fixed menu: 8000 pseudo-random graphs n=7..30 x 6 weightings in 1..9 and x 3 weightings in 1..3",
+         [["--families", lcg_menu((7, 9, 11, 13, 15, 17, 19, 22, 26, 30), (1.2, 1.5, 1.8, 2.2), 200), "--alpha", a] for a in ("R9x6", "R3x3")]),
         ("G(6) x A2, double", [["--n", 6, "--alpha", "A2"]]),
         ("G(7) x U, double", [["--n", 7, "--alpha", "U"]]),
     ]
